@@ -1015,6 +1015,12 @@ def symex(body, x, depth=0):
             if lit is not None and len(lit[0]) == 1:
                 return symex(body, lit[0][0], depth + 1)
         return ("call", callee_resolved(t) or "?", [symex(body, o, depth + 1) for o in t["ops"]])
+    # a value chosen between constants by the variant of some place (`x.map(|_| 1).unwrap_or(0)` expanded, a hand-written
+    # `if x.is_some() { 1 } else { 0 }`): it derives from that place
+    if not proj and len(ds) >= 2 and all(d[0] == "stmt" for d in ds):
+        sel = _selected_by(body, ds)
+        if sel is not None:
+            return ("call", "select", [symex(body, sel, depth + 1)] + [symex(body, d[3]["rv"]["op"], depth + 1) if d[3]["rv"]["k"] == "use" else ("?",) for d in ds][:4])
     # payload of an enum all of whose definitions are literals (what flat.py's expansion of map / and_then leaves)
     lit = body._variant_literal_ops(pl["l"], proj)
     if lit is not None and len(lit[0]) == 1 and lit[0][0].get("k") in ("move", "copy"):
@@ -1028,6 +1034,29 @@ def symex(body, x, depth=0):
         pass
     from facts import pplace
     return ("place", pplace(pl), tuple(fields), tuple(downs), pl["l"])
+
+
+def _selected_by(body, ds):
+    """The definitions ds of one local are each a plain value (constant / copy) assigned on a different edge of one
+    switch on the discriminant of a place: that place."""
+    sel = None
+    for d in ds:
+        rv = d[3]["rv"]
+        if rv["k"] not in ("use", "cast") or (rv["op"].get("k") != "const" and sym_fold(symex(body, rv["op"], 20)) is None):
+            return None         # only flags chosen between constants; a computed value keeps its own identity
+        got = None
+        for (c, s_) in body.control_dep_closure(d[1]):
+            si = body.switch_info(c)
+            if si and si["kind"] == "discr":
+                got = si["place"]
+        if got is None:
+            return None
+        if sel is None:
+            sel = got
+        elif _place_key(sel) != _place_key(got):
+            # nested selection (`a.and(b)`): keep the first, the caller sees both through atoms
+            pass
+    return sel
 
 
 def _symex_rv(body, rv, depth):
